@@ -323,6 +323,16 @@ def _bounded(ct, tier, seed):
     for i in range(4 if tier == 'quick' else 40):
         st = rng.getstate()
         lenses.append(('random#%d' % i, lambda st=st, i=i: rt.random_lens(_rng(st), finite=(i % 3 == 0))))
+
+    def _cooke_negative_fields():
+        # a traceable lens whose largest field is negative, in every run (random lenses of that kind often lose rays)
+        from optiland.fields import FieldGroup
+        L_ = rt.make_sample('optiland.samples.objectives', 'CookeTriplet')
+        L_.fields = FieldGroup()
+        for y_ in (-20.0, 0.0, 14.0):
+            L_.add_field(y=y_)
+        return L_
+    lenses.append(('CookeTriplet with fields (-20, 0, 14)', _cooke_negative_fields))
     for lname, mk in lenses:
         try:
             L = mk()
